@@ -287,8 +287,11 @@ def draw_attr_value(draw, a, g, op=None):
             return draw_datetime(draw), True
         return draw(nums(p)), True
     if k == 'generic':
-        mode = draw(st.integers(0, 3))
-        if mode == 3 and not p.number_pool:
+        mode = draw(st.integers(0, 4 if not p.number_pool else 3))
+        if mode == 4:
+            # text that denotes a number (written as the text or as the number - both are faithful)
+            elem = lambda: draw(st.sampled_from(['12', '-7', '1.5', '007', '3.0', '-0.25', '2147483647', '1.e1', '.5']))
+        elif mode == 3 and not p.number_pool:
             # integers and floats in one list (one representation code has to hold them all)
             elem = lambda: draw(st.one_of(st.integers(-2 ** 31, 2 ** 31 - 1), floats(p)))
         elif mode == 0:
